@@ -167,6 +167,14 @@ def r2_r3(ctx, L, hs):
               "once the window is increasing the loop is always left",
               "the `break` is additionally guarded (enclosing conditions: %s) or not reached on every path of `if increasing {..}`: training can "
               "continue past the first epoch at which the stopping condition holds" % "; ".join(descr))
+    # the stop decision itself must be reached in every epoch: no `continue`/exit on a path before it
+    outer_if = conds[0][0] if conds else None
+    if outer_if is not None:
+        o2 = e4.outcomes(c, L.epoch["body"], lambda n: n is outer_if)
+        skipped = sorted({str(k[0]) for (k, cnt) in o2 if cnt == 0})
+        ctx.check("R13.2", "stop-check-reached-every-epoch", not skipped, "stop-check-skipped-on:" + ",".join(skipped), c.loc(fn, outer_if),
+                  "every path through an epoch evaluates the stopping condition",
+                  "some paths through an epoch (ending in %s) never evaluate the stopping condition: training can run past the epoch at which it holds" % skipped)
     # evaluated after this epoch's pushes
     top = None
     for i, s in enumerate(L.epoch_body):
@@ -231,5 +239,5 @@ def run(ctx):
     if hs:
         ctx.guard("R13.2", "stopping", r2_r3, ctx, L, hs)
     ctx.floor("R13.1", 14, "")
-    ctx.floor("R13.2", 8, "")
+    ctx.floor("R13.2", 9, "")
     ctx.floor("R13.3", 3, "")
